@@ -53,6 +53,9 @@ type session struct {
 	out    *bufio.Reader
 	synced int // bytes of the log already sent
 	dead   bool
+	wall   time.Duration
+	rlimit bool // z3-style: needs (set-option :rlimit) after start/reset
+	fresh  bool // needs its prelude (after start or reset)
 }
 
 func (ss *session) start() error {
@@ -72,6 +75,7 @@ func (ss *session) start() error {
 	ss.cmd, ss.in, ss.out = cmd, in, bufio.NewReaderSize(out, 1<<16)
 	ss.dead = false
 	ss.synced = 0
+	ss.fresh = true
 	return nil
 }
 
@@ -132,17 +136,47 @@ func (ss *session) query(log []byte, extraRef string, names []string) (Result, m
 			return Unknown, nil, err
 		}
 	}
-	if ss.synced < len(log) {
-		ss.in.Write(log[ss.synced:])
-		ss.synced = len(log)
-	}
 	q := "(push 1)\n"
 	if extraRef != "" {
 		q += "(assert " + extraRef + ")\n"
 	}
 	q += "(check-sat)\n"
-	io.WriteString(ss.in, q)
-	line, err := ss.readLine()
+	// The write and the read both run under a watchdog: a back end that ignores its own limit, or that stops
+	// reading its input, is killed and the query counts as unknown.
+	type lineRes struct {
+		s   string
+		err error
+	}
+	ch := make(chan lineRes, 1)
+	pending := log[ss.synced:]
+	ss.synced = len(log)
+	in, rd := ss.in, ss.out
+	go func() {
+		if len(pending) > 0 {
+			if _, e := in.Write(pending); e != nil {
+				ch <- lineRes{"", e}
+				return
+			}
+		}
+		if _, e := io.WriteString(in, q); e != nil {
+			ch <- lineRes{"", e}
+			return
+		}
+		l, e := rd.ReadString('\n')
+		ch <- lineRes{strings.TrimSpace(l), e}
+	}()
+	var line string
+	var err error
+	select {
+	case r := <-ch:
+		line, err = r.s, r.err
+	case <-time.After(ss.wall):
+		ss.cmd.Process.Kill()
+		<-ch
+		ss.close()
+		ss.dead = true
+		return Unknown, nil, nil
+	}
 	if err != nil {
 		ss.dead = true
 		return Unknown, nil, fmt.Errorf("%s died: %v", ss.argv[0], err)
@@ -184,8 +218,10 @@ func (ss *session) query(log []byte, extraRef string, names []string) (Result, m
 }
 
 type Solver struct {
-	z3        *session // primary: z3 with a resource limit (bit-blasting)
-	cvc       *session // secondary: cvc5 incremental with int-blasting (arithmetic-heavy queries)
+	z3        *session   // z3 4.8.12 with a resource limit (bit-blasting)
+	z3n       *session   // z3 5.1.0 with a resource limit
+	cvc       *session   // cvc5 incremental with int-blasting (arithmetic-heavy queries)
+	order     []*session // most-recently-successful first
 	defined   map[int]bool
 	log       bytes.Buffer // declarations, definitions and assertions of the current path
 	Timeout   time.Duration
@@ -197,20 +233,37 @@ type Solver struct {
 
 func NewSolver(timeout time.Duration) (*Solver, error) {
 	s := &Solver{Timeout: timeout, Stage1: 500 * time.Millisecond}
-	s.z3 = &session{argv: []string{solverBin, "-in"}}
+	s.z3 = &session{argv: []string{solverBin, "-in"}, wall: timeout + 5*time.Second}
 	tl := int(timeout / time.Millisecond)
 	if tl > 10000 {
 		tl = 10000
 	}
-	s.cvc = &session{argv: []string{"cvc5", "--lang=smt2", "--incremental", "--produce-models", "--solve-bv-as-int=sum", fmt.Sprintf("--tlimit-per=%d", tl)}}
+	s.cvc = &session{argv: []string{"cvc5", "--lang=smt2", "--incremental", "--produce-models", "--solve-bv-as-int=sum", fmt.Sprintf("--tlimit-per=%d", tl)}, wall: time.Duration(tl)*time.Millisecond + 2*time.Second}
+	s.z3n = &session{argv: []string{"z3-new", "-in"}, wall: timeout + 5*time.Second, rlimit: true}
+	s.z3.rlimit = true
 	if err := s.z3.start(); err != nil {
 		return nil, err
+	}
+	s.order = []*session{s.z3, s.z3n, s.cvc}
+	if o := os.Getenv("VERIF_SOLVERS"); o != "" { // debugging aid: restrict / reorder the incremental back ends
+		s.order = nil
+		for _, n := range strings.Split(o, ",") {
+			switch n {
+			case "z3":
+				s.order = append(s.order, s.z3)
+			case "z3new":
+				s.order = append(s.order, s.z3n)
+			case "cvc5int":
+				s.order = append(s.order, s.cvc)
+			}
+		}
 	}
 	return s, nil
 }
 
 func (s *Solver) Close() {
 	s.z3.close()
+	s.z3n.close()
 	s.cvc.close()
 }
 
@@ -223,14 +276,23 @@ func (s *Solver) Reset(ctx *TermCtx) {
 	s.ctx = ctx
 	s.defined = map[int]bool{}
 	s.log.Reset()
-	s.z3.synced = 0
-	s.cvc.synced = 0
-	// resource limit instead of a wall-clock timer: deterministic, and free of the timer/cancel race observed with
-	// (set-option :timeout) in both z3 builds ("push canceled" on a later command).
-	io.WriteString(s.z3.in, "(reset)\n(set-option :rlimit "+strconv.Itoa(int(s.Stage1/time.Millisecond)*rlimitPerMs)+")\n")
-	if s.cvc.cmd != nil && !s.cvc.dead {
-		io.WriteString(s.cvc.in, "(reset)\n(set-logic ALL)\n")
+	for _, ss := range s.order {
+		ss.synced = 0
+		if ss.cmd != nil && !ss.dead {
+			io.WriteString(ss.in, "(reset)\n")
+			ss.fresh = true
+		}
 	}
+}
+
+// prelude returns what a fresh (started or reset) session must see before the log.
+func (s *Solver) prelude(ss *session) string {
+	if ss.rlimit {
+		// resource limit instead of a wall-clock timer: deterministic, and free of the timer/cancel race observed
+		// with (set-option :timeout) in both z3 builds ("push canceled" on a later command).
+		return "(set-option :rlimit " + strconv.Itoa(int(s.Stage1/time.Millisecond)*rlimitPerMs) + ")\n"
+	}
+	return "(set-logic ALL)\n"
 }
 
 func (s *Solver) define(t *Term) {
@@ -278,7 +340,7 @@ func (s *Solver) Assert(t *Term) {
 	s.send("(assert " + t.ref() + ")\n")
 }
 
-var valRe = regexp.MustCompile(`\(\s*\|([^|]*)\|\s+(#x[0-9a-fA-F]+|#b[01]+|true|false)\s*\)`)
+var valRe = regexp.MustCompile(`\(\s*\|?([^|\s()]+)\|?\s+(#x[0-9a-fA-F]+|#b[01]+|true|false)\s*\)`)
 
 func parseModel(txt string) map[string]uint64 {
 	m := map[string]uint64{}
@@ -327,31 +389,36 @@ func (s *Solver) Check(extra *Term, wantModel bool) (Result, map[string]uint64, 
 		}
 	}
 	log := s.log.Bytes()
-	first, second := s.z3, s.cvc
-	if s.preferCvc >= 4 {
-		first, second = s.cvc, s.z3
-	}
-	if first == s.cvc && s.cvc.cmd == nil {
-		// lazily started
-	}
-	res, model, err := first.query(s.prefixFor(first, log), extraRef, names)
-	if err != nil {
-		res = Unknown
-	}
-	if res == Unknown {
-		atomic.AddInt64(&GlobalStats.Fallback, 1)
-		r2, m2, err2 := second.query(s.prefixFor(second, log), extraRef, names)
-		if err2 == nil && r2 != Unknown {
-			atomic.AddInt64(&GlobalStats.FallbackWon, 1)
-			res, model, err = r2, m2, nil
-			if second == s.cvc {
-				s.preferCvc++
-			} else {
-				s.preferCvc = 0
+	res, model := Unknown, map[string]uint64(nil)
+	var err error
+	for k, ss := range s.order {
+		if ss.cmd == nil || ss.dead {
+			ss.close()
+			if e := ss.start(); e != nil {
+				err = e
+				continue
 			}
 		}
-	} else if first == s.z3 {
-		s.preferCvc = 0
+		if ss.fresh {
+			io.WriteString(ss.in, s.prelude(ss))
+			ss.fresh = false
+		}
+		r, m, e := ss.query(log, extraRef, names)
+		if e != nil {
+			err = e
+			continue
+		}
+		if r != Unknown {
+			res, model, err = r, m, nil
+			if k > 0 {
+				atomic.AddInt64(&GlobalStats.FallbackWon, 1)
+				// move the winner to the front
+				copy(s.order[1:k+1], s.order[:k])
+				s.order[0] = ss
+			}
+			break
+		}
+		atomic.AddInt64(&GlobalStats.Fallback, 1)
 	}
 	if res == Unknown || s.Diff {
 		full := string(log)
@@ -388,23 +455,6 @@ func (s *Solver) Check(extra *Term, wantModel bool) (Result, map[string]uint64, 
 		}
 	}
 	return res, model, nil
-}
-
-// prefixFor returns the text the session must have seen: cvc5 needs (set-logic ALL) first on a fresh process.
-func (s *Solver) prefixFor(ss *session, log []byte) []byte {
-	if ss == s.cvc && (ss.cmd == nil || ss.dead) {
-		ss.close()
-		if err := ss.start(); err == nil {
-			io.WriteString(ss.in, "(set-logic ALL)\n")
-		}
-	}
-	if ss == s.z3 && (ss.cmd == nil || ss.dead) {
-		ss.close()
-		if err := ss.start(); err == nil {
-			io.WriteString(ss.in, "(set-option :rlimit "+strconv.Itoa(int(s.Stage1/time.Millisecond)*rlimitPerMs)+")\n")
-		}
-	}
-	return log
 }
 
 // Dump returns the SMT-LIB text of the current assertion stack plus an optional extra assertion.
